@@ -1,5 +1,6 @@
 import StorageModel.C09.WfPres
 import StorageModel.C09.Universe
+import StorageModel.Generated.C09Quirks
 /-
   C09 — Integrity check: sound, complete, read-only in check mode, convergent in fix.
 
@@ -12,58 +13,53 @@ import StorageModel.C09.Universe
 
   `checkAll S fix` (C09/Model.lean) is the model of `BaseStore.CheckIntegrity` run over every
   store of a schema `S`, following uniqueIndex / setIndex / fkIndex / fkConstraint /
-  linkCollectionImpl `.CheckIntegrity` branch by branch, over a state whose index buckets,
-  back-reference lists and link lists are ARBITRARY.  `inconsistencies S s` (C09/Spec.lean) is
-  the symmetric difference between every index / back-reference list / link list and the image
-  of the entity table, computed directly.  All theorems hold for every schema (subject to the
-  stated static condition `SchemaOk` for the fix-mode ones) and every state.
+  linkCollectionImpl `.CheckIntegrity` branch by branch — the code as repaired by 6e61536 (an
+  empty value in a unique index is skipped like nil), 946f949 (`IterateLinks` is a read-only
+  lookup) and 0fc3c29 (dangling links are removed after the link-cursor loop) — over a state whose
+  index buckets, back-reference lists and link lists are ARBITRARY.  `inconsistencies S s`
+  (C09/Spec.lean) is the symmetric difference between every index / back-reference list / link
+  list and the image of the entity table, computed directly.  All theorems hold for every schema
+  and every state; the only hypotheses are
 
-  Hypotheses, each with a non-vacuity example below:
-  * `s.WF`             what bbolt guarantees of any database: keys of a bucket are distinct and
-                       non-empty;
-  * `NoEmptyUnique S s` no entity holds the empty string in a unique-indexed field.  The CRUD path
-                       accepts "" in a NULLABLE unique index without indexing it; the checker then
-                       reports the value as missing.  `empty_alias_*` prove this on a witness: the
-                       unchanged code violates the soundness and convergence clauses there
-                       (known finding, fix proposal in /verif/fixes/proposed);
-  * `SchemaOk S`       constraints are declared on pairwise different locations (a link collection
-                       and its inverse excepted) and the two sides of a link collection differ.
+  * `s.WF`        what bbolt guarantees of any database: the keys of a bucket are distinct (and
+                  non-empty), the elements of a list bucket are distinct;
+  * `SchemaOk S`  (fix-mode theorems) constraints are declared on pairwise different locations (a
+                  link collection and its inverse excepted) and the two sides of a link collection
+                  differ — decided for the harness schema by `universe_schema_ok`.
+
+  Nothing is assumed about the *content*: the empty string in a (nullable) unique index, absent
+  link buckets, and several stores fixed one after the other are all covered.
 -/
 namespace StorageModel.Properties.C09
 open StorageModel StorageModel.C09
 
+/-- obligation on regenerated data (extract/c09quirks.go reads the source on every run): the three
+    code sites have the repaired shape this model follows -/
+theorem code_shape_is_repaired :
+    Generated.c09QuirksRecognised = true ∧ Generated.c09IterateLinksCreates = false ∧
+    Generated.c09EmptyUniqueIsNil = true ∧ Generated.c09LinkRemoveDeferred = true := by decide
+
 /-! ## check-only mode -/
 
-/-- **read-only.** A check-only run returns the state it was given: entities, unique-index
-    buckets, set-index buckets and every nested list are untouched — for every schema and state. -/
-theorem check_readonly (S : Schema) (s : St) : (checkAll S false s).1 = s := by
-  rw [checkAll_false]
-
-/-- the full read-only clause also covers the *existence* of nested buckets, which the state does
-    not record (no decision depends on it): the buckets a run touches through `GetOrCreatePath`
-    are `bucketsEnsured`.  A check-only run must find all of them already there. -/
-def check_readonly_fullStatement : Prop :=
-  ∀ (S : Schema) (s : St) (existing : List (Name × Id × Name)),
-    (checkAll S false s).1 = s ∧ ∀ b ∈ bucketsEnsured S s (checkAll S false s).2, b ∈ existing
-
-/-- what holds instead (the model follows `IterateLinks → getFieldBucket → GetOrCreatePath`): the
-    run is read-only exactly when every entity of a store with a link collection already has its
-    link bucket — `LinkBucketsPresent`.  Missing: nothing on the model side; the CODE creates
-    the buckets (known finding, fix proposal in /verif/fixes/proposed). -/
-theorem check_readonly_partial (S : Schema) (s : St) (existing : List (Name × Id × Name))
-    (hpresent : ∀ b ∈ linkEnsures S s, b ∈ existing) :
-    (checkAll S false s).1 = s ∧ ∀ b ∈ bucketsEnsured S s (checkAll S false s).2, b ∈ existing := by
-  refine ⟨check_readonly S s, ?_⟩
+/-- **read-only.** A check-only run returns the state it was given — entities, unique-index
+    buckets, set-index buckets and every nested list are untouched — and creates no nested
+    bucket (`bucketsEnsured`: the only creating calls, `AddLink` and the fk back-reference
+    repair, belong to reports with `fixed = true`, which a check-only run never emits).
+    For every schema and every state, link collections included. -/
+theorem check_readonly (S : Schema) (s : St) :
+    (checkAll S false s).1 = s ∧ bucketsEnsured S (checkAll S false s).2 = [] := by
+  refine ⟨by rw [checkAll_false], ?_⟩
+  apply List.eq_nil_iff_forall_not_mem.2
   intro b hb
   unfold bucketsEnsured at hb
-  rcases List.mem_append.1 hb with hb | hb
-  · exact hpresent b hb
-  · -- no report of a check-only run carries `fixed = true`, so no repairing write happened
-    exfalso
-    obtain ⟨r, hr, hb⟩ := List.mem_flatMap.1 hb
-    have hfix : r.fixed = false := checkReports_unfixed S s r (by rw [checkAll_false] at hr; exact hr)
-    unfold reportEnsures at hb
-    simp [hfix] at hb
+  obtain ⟨r, hr, hb⟩ := List.mem_flatMap.1 hb
+  have hfix : r.fixed = false := checkReports_unfixed S s r (by rw [checkAll_false] at hr; exact hr)
+  unfold reportEnsures at hb
+  simp [hfix] at hb
+
+/-- no report of a check-only run claims a repair -/
+theorem check_reports_unfixed (S : Schema) (s : St) : ∀ r ∈ (checkAll S false s).2, r.fixed = false := by
+  rw [checkAll_false]; exact checkReports_unfixed S s
 
 /-- **complete.** Every inconsistency of a (well-formed, otherwise arbitrary) state is the subject
     of a report of the check-only run. -/
@@ -72,49 +68,52 @@ theorem check_complete (S : Schema) (s : St) (hwf : s.WF) :
   rw [checkAll_false]; exact checkReports_complete hwf S
 
 /-- **sound, report by report.** Every report of a check-only run is about a real inconsistency. -/
-theorem check_sound_reports (S : Schema) (s : St) (hwf : s.WF) (hne : NoEmptyUnique S s) :
+theorem check_sound_reports (S : Schema) (s : St) (hwf : s.WF) :
     ∀ r ∈ (checkAll S false s).2, r.about ∈ inconsistencies S s := by
-  rw [checkAll_false]; exact checkReports_sound hwf S hne
+  rw [checkAll_false]; exact checkReports_sound hwf S
 
 /-- **sound.** On a consistent state the check reports nothing. -/
-theorem check_sound (S : Schema) (s : St) (hwf : s.WF) (hne : NoEmptyUnique S s) (hinv : Inv S s) :
-    (checkAll S false s).2 = [] := by
+theorem check_sound (S : Schema) (s : St) (hwf : s.WF) (hinv : Inv S s) : (checkAll S false s).2 = [] := by
   apply List.eq_nil_iff_forall_not_mem.2
   intro r hr
-  have := check_sound_reports S s hwf hne r hr
+  have := check_sound_reports S s hwf r hr
   rw [hinv] at this
   cases this
 
 /-- sound and complete together: the check is clean exactly on the consistent states -/
-theorem check_clean_iff (S : Schema) (s : St) (hwf : s.WF) (hne : NoEmptyUnique S s) :
-    (checkAll S false s).2 = [] ↔ Inv S s := by
+theorem check_clean_iff (S : Schema) (s : St) (hwf : s.WF) : (checkAll S false s).2 = [] ↔ Inv S s := by
   constructor
   · intro h
     apply List.eq_nil_iff_forall_not_mem.2
     intro d hd
     obtain ⟨r, hr, _⟩ := check_complete S s hwf d hd
     rw [h] at hr; cases hr
-  · exact check_sound S s hwf hne
+  · exact check_sound S s hwf
 
-/-! ## fix mode -/
+/-! ## fix mode
+
+  `checkAll S true` runs every store's `CheckIntegrity(fix = true)` one after the other on the
+  evolving state — i.e. several stores in ONE transaction.  Since 0fc3c29 no loop of the link
+  check deletes under its own cursor, so for link buckets the model's "a cursor iterates the
+  list as it was when it was opened" no longer rests on bbolt's behaviour after a delete in a
+  bucket already modified by an earlier store's check. -/
 
 /-- **convergent.** After ONE fix run over an arbitrarily corrupted state, an immediate re-check
-    reports nothing but genuine data conflicts: duplicate unique value, nil in a non-nullable
-    field, dangling reference in a non-nullable foreign key. -/
-theorem fix_converges (S : Schema) (hS : SchemaOk S) (s : St) (hwf : s.WF) (hne : NoEmptyUnique S s) :
+    reports nothing but genuine data conflicts: duplicate unique value, nil (or empty) in a
+    non-nullable field, dangling reference in a non-nullable foreign key. -/
+theorem fix_converges (S : Schema) (hS : SchemaOk S) (s : St) (hwf : s.WF) :
     ∀ r ∈ (checkAll S false (checkAll S true s).1).2, Unfixable S r :=
-  (checkAll_fix_converges S hS s (pre_of_wf hwf hne)).2
+  (checkAll_fix_converges S hS s (pre_of_wf hwf)).2
 
 /-- **idempotent.** A second fix run changes nothing. -/
-theorem fix_idempotent (S : Schema) (hS : SchemaOk S) (s : St) (hwf : s.WF) (hne : NoEmptyUnique S s) :
+theorem fix_idempotent (S : Schema) (hS : SchemaOk S) (s : St) (hwf : s.WF) :
     (checkAll S true (checkAll S true s).1).1 = (checkAll S true s).1 :=
-  checkAll_fix_idempotent S hS s (pre_of_wf hwf hne)
+  checkAll_fix_idempotent S hS s (pre_of_wf hwf)
 
 /-- on a consistent state a fix run changes nothing either -/
-theorem fix_noop_on_consistent (S : Schema) (s : St) (hwf : s.WF) (hne : NoEmptyUnique S s) (hinv : Inv S s) :
-    (checkAll S true s).1 = s := by
+theorem fix_noop_on_consistent (S : Schema) (s : St) (hwf : s.WF) (hinv : Inv S s) : (checkAll S true s).1 = s := by
   have hrep : checkReports S s = [] := by
-    have := check_sound S s hwf hne hinv
+    have := check_sound S s hwf hinv
     rw [checkAll_false] at this; exact this
   rw [checkAll_units]
   apply units_idempotent
@@ -128,9 +127,8 @@ theorem fix_noop_on_consistent (S : Schema) (s : St) (hwf : s.WF) (hne : NoEmpty
   exact u.good_of_rep_nil s hu'
 
 /-- a fix run keeps the state well-formed, so every theorem above applies to the repaired state -/
-theorem fix_preserves_wf (S : Schema) (hS : SchemaOk S) (s : St) (hwf : s.WF) (hne : NoEmptyUnique S s) :
-    (checkAll S true s).1.WF :=
-  checkAll_fix_wf S hS s hwf hne
+theorem fix_preserves_wf (S : Schema) (hS : SchemaOk S) (s : St) (hwf : s.WF) : (checkAll S true s).1.WF :=
+  checkAll_fix_wf S hS s hwf
 
 /-- the kinds of discrepancy that are data conflicts rather than index damage -/
 def ConflictKind (S : Schema) : Disc → Prop
@@ -145,13 +143,13 @@ def ConflictKind (S : Schema) : Disc → Prop
     no extra, stale, dangling, junk or empty index entry, no missing or extra back-reference, no
     dangling or one-sided link is left — and each one is reported, as unfixable, by the re-check.
     (A remaining `uqMissing v id` is reported as `uqDup`: another entity owns the value.) -/
-theorem fix_mirrors (S : Schema) (hS : SchemaOk S) (s : St) (hwf : s.WF) (hne : NoEmptyUnique S s) :
+theorem fix_mirrors (S : Schema) (hS : SchemaOk S) (s : St) (hwf : s.WF) :
     ∀ d ∈ inconsistencies S (checkAll S true s).1,
       ConflictKind S d ∧
       ∃ r ∈ (checkAll S false (checkAll S true s).1).2, r.about = d ∧ Unfixable S r := by
   intro d hd
-  obtain ⟨r, hr, hab⟩ := check_complete S _ (fix_preserves_wf S hS s hwf hne) d hd
-  have hu := fix_converges S hS s hwf hne r hr
+  obtain ⟨r, hr, hab⟩ := check_complete S _ (fix_preserves_wf S hS s hwf) d hd
+  have hu := fix_converges S hS s hwf r hr
   refine ⟨?_, r, hr, hab, hu⟩
   subst hab
   unfold Unfixable at hu
@@ -191,7 +189,6 @@ def good : StD :=
     setx := [ ((things, "roles"), [(r1, .ids [a1]), (r2, .ids [a1, a2])]) ] }
 
 example : good.toSt.WF := good.wf (by decide)
-example : NoEmptyUnique uniSchema good.toSt := by decide
 example : Inv uniSchema good.toSt := by decide
 example : (checkAll uniSchema false good.toSt).2 = [] := by decide
 
@@ -213,14 +210,13 @@ def bad : StD :=
     setx := [ ((things, "roles"), [(r1, .ids [a1]), ([114, 49, 49], .junk), (r2, .ids [a1])]) ] }
 
 example : bad.toSt.WF := bad.wf (by decide)
-example : NoEmptyUnique uniSchema bad.toSt := by decide
 example : (inconsistencies uniSchema bad.toSt).length = 7 := by decide
 example : (checkAll uniSchema false bad.toSt).2.map (·.msg) =
     [.lkOneSided a1 b2, .uqStale n1 a2 n2, .uqDup n1 a2 a1, .sxJunk [114, 49, 49], .sxMissing r2 a2,
      .fkBackStale b1 a1 [98, 57], .fkDangling a1 [98, 57]] := by decide
 example : (checkAll uniSchema false (checkAll uniSchema true bad.toSt).1).2 = [] := by decide
 
-/-! ## the known findings, on concrete witnesses (the model follows the code) -/
+/-! ## the first-round findings, now repaired: the former counterexamples as positive instances -/
 
 /-- an entity with the EMPTY STRING in the nullable unique index `things.alias`: reachable through
     `Create` (the index accepts "" and stores no entry) -/
@@ -231,43 +227,32 @@ def emptyAlias : StD :=
     uniq := [ ((things, "name"), [(n1, a1)]) ]
     setx := [] }
 
-/-- the state is well-formed and consistent ... -/
-theorem empty_alias_consistent : emptyAlias.toSt.WF ∧ Inv uniSchema emptyAlias.toSt :=
-  ⟨emptyAlias.wf (by decide), by decide⟩
+/-- the state is well-formed and consistent, the check reports nothing on it (before 6e61536:
+    `unique index things.alias missing value  for id a1`, claimed fixed, reported again for ever),
+    and a fix run leaves it alone -/
+theorem empty_alias_clean :
+    emptyAlias.toSt.WF ∧ Inv uniSchema emptyAlias.toSt ∧ (checkAll uniSchema false emptyAlias.toSt).2 = [] ∧
+    (checkAll uniSchema true emptyAlias.toSt).2 = [] :=
+  ⟨emptyAlias.wf (by decide), by decide, by decide, by decide⟩
 
-/-- ... yet the check reports an inconsistency: soundness fails on the code as found (entity loop
-    testing `fieldType == TypeNil` only; the extractor regenerates `quirkEmptyIsNil` from the source), -/
-theorem empty_alias_unsound : quirkEmptyIsNil = false →
-    (checkAll uniSchema false emptyAlias.toSt).2 = [⟨things, "alias", .uqMissing [] a1, false⟩] := by decide
-
-/-- the fix run claims to have fixed it while writing nothing, and the re-check reports it again
-    (convergence fails on the code as found) -/
-theorem empty_alias_not_convergent : quirkEmptyIsNil = false →
-    (checkAll uniSchema true emptyAlias.toSt).2 = [⟨things, "alias", .uqMissing [] a1, true⟩] ∧
-    (checkAll uniSchema false (checkAll uniSchema true emptyAlias.toSt).1).2
-      = [⟨things, "alias", .uqMissing [] a1, false⟩] := by decide
-
-/-- with the proposed repair (empty treated like nil) the witness is reported clean -/
-theorem empty_alias_clean_when_repaired : quirkEmptyIsNil = true →
-    (checkAll uniSchema false emptyAlias.toSt).2 = [] := by decide
-
-/-- a check-only run makes sure the link bucket of EVERY entity of a store with a link collection
-    exists (`IterateLinks` → `GetOrCreatePath`): for the healthy state `good`, whose `a2` and `b2`
-    have no link bucket, the read-only clause fails on the code as it is -/
-theorem check_creates_link_buckets : quirkLinksCreate = true →
-    (things, a2, "groups") ∈ bucketsEnsured uniSchema good.toSt (checkAll uniSchema false good.toSt).2 ∧
-    (owners, b2, "members") ∈ bucketsEnsured uniSchema good.toSt (checkAll uniSchema false good.toSt).2 := by
+/-- the same value in a NON-nullable unique index is a conflict, reported as such and left alone -/
+example : (uniqueCheck things "alias" false true emptyAlias.toSt).2 = [⟨things, "alias", .uqNull a1, false⟩] := by
   decide
 
-/-- with the proposed repair (read-only `IterateLinks`) a check-only run touches no bucket at all -/
-theorem check_readonly_when_repaired (S : Schema) (s : St) : quirkLinksCreate = false →
-    (checkAll S false s).1 = s ∧ bucketsEnsured S s (checkAll S false s).2 = [] := by
-  intro hq
-  refine ⟨check_readonly S s, ?_⟩
-  have h := (check_readonly_partial S s [] (by unfold linkEnsures; rw [hq]; intro b hb; cases hb)).2
-  exact List.eq_nil_iff_forall_not_mem.2 fun b hb => by cases h b hb
+/-- two dangling links next to each other and a one-sided link from the other store, both stores
+    fixed one after the other (owners first): before 0fc3c29 the second dangling link survived the
+    run inside one transaction; in the model — and now in the code — one run repairs everything -/
+def twoDangling : StD :=
+  { ents :=
+      [ (things, [ ⟨a1, [("name", .str n1), ("home", .str b1), ("req", .str b1)],
+                        [("roles", []), ("groups", [[98, 56], [98, 57]])]⟩ ]),
+        (owners, [ ⟨b1, [], [("residents", [a1]), ("members", [a1])]⟩ ]) ]
+    uniq := [ ((things, "name"), [(n1, a1)]) ]
+    setx := [] }
 
-/-- obligation on regenerated data: both code sites had a shape the model knows -/
-theorem quirks_recognised : Generated.c09QuirksRecognised = true := by decide
+theorem one_transaction_fix_converges :
+    ((checkAll uniSchema.reverse true twoDangling.toSt).2.map (·.msg) =
+      [.lkOneSided b1 a1, .lkDangling a1 [98, 56], .lkDangling a1 [98, 57]]) ∧
+    (checkAll uniSchema.reverse false (checkAll uniSchema.reverse true twoDangling.toSt).1).2 = [] := by decide
 
 end StorageModel.Properties.C09
